@@ -6,6 +6,8 @@
 
 From Servitor Require Import Base Collection.
 From Servitor.Facts Require Import CollectionFacts.
+From Servitor Require Import Unicode Ansi Mime Json Object Jtp Client Paging.
+From Servitor.Facts Require Import PagingFacts.
 
 (* every request returns after visiting a bounded number of pages - the fuel supplied is never exhausted, also on cyclic and endlessly empty chains *)
 Theorem harvest_bounded :
@@ -77,3 +79,52 @@ Example c10_example :
     | 3 => mkpage [30] (NRef 4) | 4 => mkpage [] (NRef 5) | 5 => mkpage [] (NRef 6) | _ => mkpage [60] NAbsent end%nat in
   requests (fun r => Some (pg r)) (Some (pg 0%nat, 0%nat)) [10%nat] = ([DItem 10; DItem 30; DItem 60]%nat, None).
 Proof. vm_compute. reflexivity. Qed.
+
+(* REMOTE collections (pages fetched by URL): a fetched object is paged only if it is one of the four collection kinds *)
+Theorem coll_page_kind :
+  forall (o : obj) (id : option url) (pg : page pref pref),
+  coll_page o id = Some pg ->
+  exists k : text,
+  get_string o s_ptype = Present k /\ In k [k_collection; k_ordered; k_page; k_ordered_page].
+Proof. exact coll_page_kind_fact. Qed.
+Print Assumptions coll_page_kind.
+
+(* every element and the continuation travel with the id of the page that holds them (they are fetched/constructed relative to it) *)
+Theorem coll_page_source :
+  forall (o : obj) (id : option url) (pg : page pref pref),
+  coll_page o id = Some pg ->
+  Forall (fun e : jv * option url => snd e = id) (p_items pg) /\
+  match p_next pg with
+  | NAbsent => True
+  | NRef r => snd r = id
+  end.
+Proof. exact coll_page_source_fact. Qed.
+Print Assumptions coll_page_source.
+
+(* what is not a collection, or cannot be fetched, is not paged at all *)
+Theorem remote_none :
+  forall (W : url -> entry) (is_https : url -> bool) (resolve : url -> bytes -> option url)
+  (cap : nat) (parse_ref : option url -> text -> option url)
+  (url_parse : text -> option url) (host_of : url -> text) (root : jv)
+  (amounts : list nat),
+  load_page W is_https resolve cap parse_ref url_parse host_of (root, None) = None ->
+  remote_requests W is_https resolve cap parse_ref url_parse host_of root amounts = None.
+Proof. exact remote_none_fact. Qed.
+Print Assumptions remote_none.
+
+(* the deliveries of pub.New(url) + successive Harvest calls are exactly Collection.requests over the page graph the servers define - so harvest_bounded, harvest_prefix and harvest_exact above (stated for EVERY load function, cyclic and broken graphs included) hold of them *)
+Theorem remote_requests_spec :
+  forall (W : url -> entry) (is_https : url -> bool) (resolve : url -> bytes -> option url)
+  (cap : nat) (parse_ref : option url -> text -> option url)
+  (url_parse : text -> option url) (host_of : url -> text) (root : jv)
+  (amounts : list nat) (p : page pref pref),
+  load_page W is_https resolve cap parse_ref url_parse host_of (root, None) = Some p ->
+  exists reqs : list (list (delivered pref pref) * bool),
+  remote_requests W is_https resolve cap parse_ref url_parse host_of root amounts =
+  Some reqs /\
+  concat (map fst reqs) =
+  fst
+  (requests (load_page W is_https resolve cap parse_ref url_parse host_of)
+  (Some (p, 0)) amounts) /\ length reqs <= length amounts.
+Proof. exact remote_requests_spec_fact. Qed.
+Print Assumptions remote_requests_spec.
